@@ -162,3 +162,61 @@ func c17UseChainCheck(srcs map[string]string) (out [][2]string) {
 	}
 	return out
 }
+
+// C17 (E3): check-time faults (unknown function, wrong arity) inside calls, list literals and map
+// literals at depth. The first entry is the fault; every further entry of the chain is the position of an
+// enclosing CALL (an identifier directly followed by an opening parenthesis) or - pinned: the check pass
+// records them - of an enclosing list literal's `[`; nothing else earns a line.
+func c17CheckFaultChains(w *run.Worker) {
+	faults := []string{"nosuch(1)", "len()", "len(1, 2)"}
+	roles := []string{"b = %s", "add_key(k, %s)", "x = [1, %s]", "x = {\"k\": %s}", "x = {\"k\": [%s]}", "add_key(k, {\"a\": {\"b\": %s}})", "x = [{\"k\": %s}]",
+		"if %s { }", "x = len([%s])", "strfmt(k, \"%%v\", {\"a\": %s})", "x = {\"a\": 1, \"é\": {\"b\": [2, {\"c\": %s}]}}", "for v in {\"k\": %s} { }", "x = {\"k\": 1}[%s]"}
+	for _, f := range faults {
+		for _, r := range roles {
+			for _, pre := range []string{"", "y = 1\n", "# é\n\n  "} {
+				if !w.Take() {
+					continue
+				}
+				src := pre + fmt.Sprintf(r, f) + "\n"
+				w.Eval()
+				_, errs := drv.Load(map[string]string{"s.p": src})
+				e, bad := errs["s.p"]
+				if !bad {
+					w.Note("load_faults_accepted(decided elsewhere)", 1)
+					continue
+				}
+				pe, ok := e.(*errchain.PlError)
+				cs := c17Case{Part: "check-fault-chain", Source: src}
+				if !ok || pe == nil || len(pe.PosChain) == 0 {
+					continue // decided by the load-fault part
+				}
+				w.Outcome(fmt.Sprintf("check-fault-chain|%d", len(pe.PosChain)))
+				if m := c17ErrPos(pe, src, "s.p"); m != "" {
+					continue // decided by the load-fault part
+				}
+				for i, p := range pe.PosChain {
+					if i == 0 {
+						continue
+					}
+					rest := src[p.Pos:]
+					isList := strings.HasPrefix(rest, "[")
+					j := 0
+					for j < len(rest) && (rest[j] == '_' || rest[j] >= 'a' && rest[j] <= 'z' || rest[j] >= 'A' && rest[j] <= 'Z' || rest[j] >= '0' && rest[j] <= '9') {
+						j++
+					}
+					isCall := j > 0 && j < len(rest) && rest[j] == '('
+					if !isList && !isCall {
+						w.Violate("C17:check-fault-chain:entry-is-neither-an-enclosing-call-nor-a-list", fmt.Sprintf("entry %d of the chain is at offset %d (%d:%d), text there: %q\nerror: %s\n%s", i, p.Pos, p.Ln, p.Col, rest[:minInt(len(rest), 12)], pe.Error(), src), cs)
+					}
+				}
+			}
+		}
+	}
+}
+
+func minInt(a, b int) int {
+	if a < b {
+		return a
+	}
+	return b
+}
